@@ -99,6 +99,22 @@ CHECKS = {
    text='PARTIAL. Proved for all chains of abstract schemas where each step may use any partitioned command list in any valid order computed from the actual previous result: the chain ends in the last schema, two paths to the same target agree, a final migration to the empty schema removes everything. '
         'On the REAL code (monitors): generated chains of schemas (renames, re-parenting, re-typing of objects created by earlier steps) are migrated step by step and directly, and finally to empty; results compared by the repo\'s own delta_schemas and an independent structural dump; residues of the C02 known findings are classified by id.',
    note='Same trusted base and partiality as C02 (shared model coq/theories/Evo, shared generator and driver). No axioms.'),
+ 'C15': dict(
+   category='proof', design_ref='DESIGN.md section 4, C15 + Appendix A.2 (+ section 9 change log)',
+   technique='Coq invariant proof over all event sequences and all oracle values of a deterministic asyncio-atomic-section state-machine model of connpool.Pool; differential correspondence vs the real Pool on a deterministic event loop with a ghost-truth fake backend',
+   text='9 machine-checked theorems for every state reachable from init for any capacity, any event sequence (acquire, release, discard, connect/disconnect completion or failure, ticks, GC, prune, single ready callbacks), any number of databases and tasks and ANY value of the float/clock-dependent oracles: '
+        '|open| - handed-back-broken + opening <= max; reported usage = open + opening + completions still queued (exact at quiescence); a lent connection is distinct, open, not being closed, in use in exactly one block, on no stack and was opened for the requested database; stack entries are idle and open; '
+        'the pool\'s own assertions about connection state never fire. Tie: the real Pool runs on a harness-owned event loop (clock shim, harness-owned connect/disconnect futures, explicit timers); after EVERY event and every single ready callback the full state (counters, per-block dicts, stacks, waiter queues, ready-queue labels, waitlists) is compared with the extracted model; '
+        'ghost-truth monitors in the fake backend check the property directly on the implementation.',
+   note='Trusted: Coq kernel; extraction; harness (event loop, clock shim, fake backend, Task introspection, oracle read-off); CPython Task/Future/gather scheduling and dict/deque ordering as observed; assumption: a disconnect that raises still leaves the connection closed. '
+        'Not modelled: prune_all_connections (HA failover), caller cancellation of acquire(), logging/snapshots, _NaivePool, pool2. No axioms.'),
+ 'C16': dict(
+   category='proof', design_ref='DESIGN.md section 4, C16 (+ section 9 change log)',
+   technique='Coq invariants (no lost wake-up, retry-or-abort) over the shared pool model plus a machine-checked refutation of the full liveness statement; fair-drain liveness monitor on the real Pool',
+   text='PARTIAL. Proved for every reachable state of the pool model (any events, any oracle values): a block with queued waiters never has more idle connections than wake-ups already scheduled (no lost wake-up), at quiescence no block has both an idle connection and a queued waiter, a failed connect schedules exactly one retry or (retries exhausted / 3D000) fails every waiter of the block. '
+        'The full statement "a state at rest has no blocked acquire" is REFUTED in Coq (C16_full_refuted) by a recorded real trace that is replayed on the implementation on every run; the progress theorems sketched in DESIGN were dropped because the faithful model exhibits stuck states. '
+        'On the real Pool every generated schedule is driven to quiescence by a fair, progress-based scheduler (all holders release, connects complete, ticks/GC fire) and every acquire must have returned or received the connect error; starved requests are classified by three known-finding ids, anything else is a VIOLATION.',
+   note='Same model, harness and trusted base as C15. Liveness itself is NOT proved (it is false of the pinned code in the three known-finding classes); the fair-drain monitor is an exploration, not a proof. No axioms.'),
 }
 
 NA_DEFAULT = 'check not built yet (round 1 in progress); see DESIGN.md section 6'
